@@ -4,6 +4,7 @@
 package main
 
 import (
+	"context"
 	"io"
 	"log/slog"
 
@@ -51,8 +52,11 @@ type Case struct {
 	// Relay > 0: the Mux gets the logger package's Relay as its relay handler (what an application
 	// does to have its requests logged), with a logger whose threshold is INFO (1), ERROR (2: the
 	// request records are suppressed) or FATAL (3); dispatch is the same through it.
-	Relay int   `json:"relay,omitempty"`
-	Reqs  []Req `json:"reqs,omitempty"`
+	Relay int `json:"relay,omitempty"`
+	// CancelledCtx: every request of the case carries a context that is already cancelled (a client that
+	// went away): dispatch does not depend on it.
+	CancelledCtx bool  `json:"cancelled_ctx,omitempty"`
+	Reqs         []Req `json:"reqs,omitempty"`
 }
 
 type handlerPanic struct{}
@@ -184,6 +188,9 @@ func runCase(cs Case, st *stats) (key, expected, observed string) {
 		w := &nullWriter{h: http.Header{}}
 		u := &url.URL{}
 		hr := &http.Request{URL: u, Header: http.Header{}}
+		if cs.CancelledCtx {
+			hr = hr.WithContext(cancelledCtx) // shallow copy: same URL object
+		}
 		for _, rq := range reqs {
 			hr.Method, u.Path = rq.M, rq.P
 			o = obs{route: -2, params: o.params[:0]}
@@ -633,6 +640,12 @@ func (mn mon) Run(sh drv.Shard, c *drv.Ctx) {
 
 // request methods beyond the nine the router names: WebDAV extension methods are longer than any of
 // those, and a method token has no length limit
+var cancelledCtx = func() context.Context {
+	c, cancel := context.WithCancel(context.Background())
+	cancel()
+	return c
+}()
+
 var longMethod = strings.Repeat("LONGMETHOD", 30)
 
 var methods10 = []string{"GET", "HEAD", "POST", "PUT", "PATCH", "DELETE", "CONNECT", "OPTIONS", "TRACE", "*"}
@@ -689,6 +702,7 @@ func randCase(r *rand.Rand) Case {
 	if r.Intn(4) == 0 {
 		cs.Relay = 1 + r.Intn(3)
 	}
+	cs.CancelledCtx = r.Intn(8) == 0
 	for i := 0; i < nreq; i++ {
 		var p string
 		if r.Intn(4) != 0 && len(cs.Routes) > 0 { // (every random pattern of a case may have been unregistrable)
